@@ -118,7 +118,7 @@ def harnesses(tier, seed):
     # "objective values include h at the stored point": every Model operation that writes an objective value, with a regulariser
     # (and with internal scaling, where h must see the user's units) - C17's one-operation harnesses
     from . import c17
-    for h in c17.harnesses('quick', seed):
+    for h in c17.model_harnesses('quick', seed):
         if h.params['with_h'] and h.params['npt_so_far'] == h.params['num_pts'] and \
                 h.params['op'] in ('change_point', 'add_new_sample', 'add_new_point', 'save_point_abs', 'save_point_rel', 'get_final_results'):
             h.home = 'C06'
